@@ -254,6 +254,29 @@ theorem ideal_splice (old : E) (rs pos size : Nat) (v : E) (ho : old.size = rs) 
       have e2 : size = rs := by omega
       exact absurd ⟨rfl, e2⟩ hn
 
+/-! ### constant folding at construction -/
+
+theorem foldE_spec : ∀ e : E, ideal sem σ (foldE e) = ideal sem σ e ∧ (foldE e).size = e.size
+  | .cst _ _ => ⟨rfl, rfl⟩
+  | .reg _ _ => ⟨rfl, rfl⟩
+  | .slc x p s => by
+    obtain ⟨h1, _⟩ := foldE_spec x
+    simp only [foldE, ideal_mkSlice, size_mkSlice, ideal, E.size, h1, and_self]
+  | .cat lo hi => by
+    obtain ⟨l1, l2⟩ := foldE_spec lo
+    obtain ⟨r1, r2⟩ := foldE_spec hi
+    simp only [foldE, ideal_mkCat, size_mkCat, ideal_cat, E.size, l1, l2, r1, r2, and_self]
+  | .addc x c => by
+    obtain ⟨h1, h2⟩ := foldE_spec x
+    simp only [foldE, ideal_mkAddc, size_mkAddc, ideal, E.size, h1, h2, and_self]
+  | .op o l r s => by
+    obtain ⟨l1, _⟩ := foldE_spec l
+    obtain ⟨r1, _⟩ := foldE_spec r
+    simp only [foldE, ideal, E.size, l1, r1, and_self]
+  | .load b d s be ms => by
+    obtain ⟨h1, h2⟩ := foldE_spec b
+    simp only [foldE, ideal, E.size, h1, h2, and_self]
+
 /-! ### IR right-hand sides -/
 
 theorem size_toE (be : Bool) (x : X) : (x.toE be).size = x.size := by
